@@ -681,6 +681,9 @@ def sim_print(*args, **kwargs):
         STDERR.append(kwargs.get("sep", " ").join(map(str, args)))
         return None
     s.step("print", None)
+    st = FILE_STALL.get("plan")
+    if st is not None:
+        st.maybe_stall(s)   # slow consumer on stdout
     PRINTED.append(kwargs.get("sep", " ").join(map(str, args))
                    + kwargs.get("end", "\n"))
     me = s.me()
